@@ -191,6 +191,13 @@ func (l *forEachProvider) LoadSchema(inputs map[string]any, workflowContext map[
 		return nil, err
 	}
 
+	// The parent workflow checks the items against the input schema of the sub-workflow, in its own run loop and when
+	// it hands them to this step, while the executions of the sub-workflow use the same schema. The SDK calculates the
+	// default values of an unserialized object schema on first use, without synchronisation, so calculate them now.
+	for _, object := range preparedWorkflow.Input().Objects() {
+		object.GetDefaults()
+	}
+
 	outputSchema := preparedWorkflow.OutputSchema()
 	if _, ok := outputSchema["success"]; !ok {
 		return nil, fmt.Errorf("the referenced workflow must contain an output named 'success'")
